@@ -4,6 +4,7 @@
    observed by the harness (goroutine dump at quiescence). *)
 From FMP Require Import Base.Bytes Base.Lts Model.Events Model.Skeleton Model.Props Model.Receiver Model.Writer
      Proofs.ReceiverProofs Proofs.WriterProofs Proofs.SkeletonProofs.
+From FMP Require Import Model.Paths Proofs.PathProofs.
 Open Scope Z_scope.
 
 (* serving side: the receive goroutine, every goroutine reporting the end of its handler, and the task loop can move *)
@@ -38,7 +39,13 @@ Example ex_stopped_reachable : exists st,
     /\ stopped st = true /\ ending_can_move expected_skeleton st 0 = true.
 Proof. eexists. split; [vm_compute; reflexivity | split; vm_compute; reflexivity]. Qed.
 
+(* the pending-call table: on every path through dispatch.Call as it is in the source now (Model/Paths.v), a call that was
+   registered is unregistered exactly once (the deferred RemoveCall), whatever branch, select arm or return is taken; and
+   the frame is handed to the encoder only after the registration *)
+Theorem C11_call_paths_unregister : call_paths_unregister = true. Proof. exact paths_call_unregisters. Qed.
+
 Print Assumptions C11_serving_side_never_stuck.
 Print Assumptions C11_sending_side_never_stuck.
 Print Assumptions C11_generated_ok.
 Print Assumptions C11_taskend_bare_parks_forever.
+Print Assumptions C11_call_paths_unregister.
